@@ -8,4 +8,4 @@ Extraction "extracted/C13_model.ml" xb_types max_token cfg0 build cycle_take
   raw_decode raw_run raw_init render_raw raw_entries wf_ritem
   json_stream_decode json_array_decode entity_entry
   parse_shoot_name convert spread_counts extract_index property_resolve rand_string_alloc
-  mp_reads grpc_decode decode_header header_set GET.
+  mp_reads grpc_decode decode_header header_set GET rand_int_range.
